@@ -4,7 +4,7 @@ W3s  every access to a slot payload anywhere in the crate happens at a site that
 W1s  the same for writes to head / slot tags / stream positions / pin counts / writers / consumer counts."""
 import re
 from core import CheckError, short, short_fn
-from rules_send import FLAVOURS, WRITE_OPS, PAYLOAD_ANY, send_entry
+from rules_send import FLAVOURS, WRITE_OPS, PAYLOAD_ANY, send_entry, is_dead
 from rules_recv import recv_roots, is_user_closure_call
 
 
@@ -109,6 +109,8 @@ def run(ctx):
             # wrappers are thin (S3); the leaf modules cannot name QueueEntry / MultiQueue fields
             if not re.match(r'^(<&?(\'a )?)?(broadcast|mpmc)::', name):
                 continue
+        if is_dead(F, name):
+            continue
         n += 1
         for fl in FLAVOURS:
             try:
